@@ -156,6 +156,16 @@ CLAIMED = {
              "before removal on stop. Recipient sets for concrete subscription populations, regex matching and >= 8192 pending messages are not decided.",
         tech="must-fact guards, path-sensitive ownership, allocation-multiplicity (per-recipient vs per-send) over the resolved call graph, null-deref contradiction rule with callee summaries",
         ref="DESIGN.md §4 C02"),
+    "C04": dict(
+        text="Memory safety of all histories is not statically decidable here; the check decides the ownership discipline the code documents "
+             "(necessary conditions): provenance of every m_mem_ref/unref argument (never a stack/global/literal address, followed through "
+             "parameters and the iterate binding), every stored/registered/thread-handed pointer to a ref-counted object is a counted reference or "
+             "a transferred fresh object, every fresh object is stored/consumed/returned/released on every feasible path (allocation-failure paths "
+             "exempt), nullable fields are not dereferenced unguarded (callee summaries), no dereference after the releasing unref within a "
+             "function, destructors release every owning field, layout facts behind the casts. Known findings K1, K3, K4 (borrowed pointers whose "
+             "holder can outlive the object) are reported, each with the failing history.",
+        tech="inter-procedural provenance/taint, escape (ownership) analysis over feasible paths, contradiction rule for NULL, record layouts",
+        ref="DESIGN.md §4 C04"),
 }
 
 NOT_APPLICABLE = {
